@@ -254,6 +254,38 @@ func evalC02(c *Ctx, cs *Case) {
 		}
 		modes = kept
 	}
+	// a heading-root spelling of the same forest is rendered first (well-formed: must be accepted
+	// and complete); it also leaves "# root" parser state behind for the bullet-root documents
+	// that follow, which must not be affected by it
+	if gen.CanHeading(f) {
+		hsp := gen.Spelling{Unit: "  ", Bullet: 3, Heading: 1 + int(cs.Seed%3), FinalNL: true, Seed: cs.Seed}
+		hdoc := gen.Spell(f, hsp)
+		for _, m := range modes {
+			if m.name == "toml" && len(f) != 1 {
+				continue
+			}
+			cs.Entry = modeLabel(m)
+			cs.Tags = []string{"wellformed", "heading-roots", map[bool]string{true: "massive", false: "simple"}[m.massive]}
+			if m.massive {
+				cs.SetDoc(hdoc)
+				c.Rejournal(cs)
+			}
+			out, rows, o := m.run(hdoc, context.Background())
+			c.Eval(gen.HashString(fkey+"\x00heading"+cs.Entry), merged.Size() >= 2)
+			det := map[string]any{"doc": hdoc, "spelling": hsp.String(), "err": errStr(o.Err), "out": trunc(string(out), 1500), "forest": fkey}
+			switch {
+			case o.Panic != nil:
+				c.Violation(cs, "panic", PanicSig(o.Panic, o.Stack), det)
+			case o.Err != nil:
+				c.Violation(cs, "wellformed.rejected", "", det)
+			default:
+				if ok, why := c02Complete(m, merged, out, rows); !ok {
+					det["why"] = why
+					c.Violation(cs, "accepted.incomplete", "", det)
+				}
+			}
+		}
+	}
 	for si, sp := range spellings {
 		sp.Seed = cs.Seed
 		lines := gen.SpellLines(f, sp)
